@@ -66,6 +66,20 @@ def cases(draw, tier):
     if nd > 1 and shape == 0: tyb = tys[draw(st.integers(1, nd)):]
     if nd > 1 and shape == 1: tya = tys[draw(st.integers(1, nd)):]
     twin = draw(st.integers(0, 3)) == 0 and tya is tyb      # same pattern, other values and default
+    untyped = False
+    if not twin and tya is tyb and draw(st.integers(0, 3)) == 0:
+        # "of any pattern": the two operands decompose the same dimensions differently (blocks that start at the same offset
+        # but differ in length, overlapping blocks); add/mul/sub go through anti-unification, which must generalise soundly
+        def alt(n):
+            if n < 2 or draw(st.integers(0, 3)) == 0: return ['atom', n]
+            a = draw(st.integers(1, n - 1))
+            if n - a >= 2 and draw(st.booleans()):
+                b = draw(st.integers(1, n - a - 1))
+                return ['sum', [['atom', a], ['atom', b], ['atom', n - a - b]]]
+            return ['sum', [['atom', a], ['atom', n - a]]]
+        tya = [alt(gp.numel(T)) for T in tys]
+        tyb = [alt(gp.numel(T)) for T in tys]
+        untyped = True
     if kind == 'bool':
         pa = draw(gp.tensor_specs(tya, dtype='bool'))
         pb = dict(pa, phys=[draw(st.booleans()) for _ in pa['phys']], default=draw(st.booleans())) if twin else draw(gp.tensor_specs(tyb, dtype='bool'))
@@ -76,7 +90,7 @@ def cases(draw, tier):
         pa = draw(gp.tensor_specs(tya, values=vals, defaults=dfl, dtype=dtype, p_reuse=0.6 if twin else 0.25))
         pb = dict(pa, phys=[draw(st.sampled_from(vals)) for _ in pa['phys']], default=draw(st.sampled_from(dfl))) if twin else \
             draw(gp.tensor_specs(tyb, values=vals, defaults=dfl, dtype=dtype))
-    return {'kind': kind, 'dtype': dtype, 'xs': xs, 'ys': ys, 'zs': zs, 'm': m, 'n': n, 'pa': pa, 'pb': pb}
+    return {'kind': kind, 'dtype': dtype, 'xs': xs, 'ys': ys, 'zs': zs, 'm': m, 'n': n, 'pa': pa, 'pb': pb, 'untyped_pair': untyped}
 
 
 def strategy(tier):
@@ -335,6 +349,7 @@ def check(case, ctx):
     da, db = gp.dense_torch(case['pa']), gp.dense_torch(case['pb'])
     patterned = gp.is_structured(case['pa']) or gp.is_structured(case['pb'])
     if patterned: ctx.label('patterned-operand'); nontriv = True
+    if case.get('untyped_pair'): ctx.label('differently-decomposed-operands')
     if da.ndim != db.ndim: ctx.label('broadcast-left' if da.ndim < db.ndim else 'broadcast-right')
     if patterned and case['pa']['vaxes'] == case['pb']['vaxes'] and case['pa']['paxes'] == case['pb']['paxes']: ctx.label('common-pattern')
     for name in ('add', 'mul', 'sub'):
